@@ -25,6 +25,12 @@ After(e) ==
     [] e.op = "point"     -> TAppendPoint(t, e.label, IAff(e.coords))
     [] e.op = "challenge" -> TAfterChallenge(t, e.label)
 
+(* specification-side class: the digest lies within 2^240 of a multiple of r (where the reduction and any shortcut around it are decided) *)
+Win240 == Pow2Big(240)
+NearKR(stream) ==
+  LET d == NFromBytesLE(WHash(stream)) IN
+  \E k \in 1 .. 8 : LET kr == NMul(NOfInt(k), WR) IN
+     (NLe(kr, d) /\ NLt(d, NAdd(kr, Win240))) \/ (NLt(d, kr) /\ NLe(kr, NAdd(d, Win240)))
 Init == l = 1 /\ bad = <<>> /\ cnt = << >> /\ t = TNew(<<>>) /\ fin0 = [stream |-> <<>>, chal |-> N0]
 Next ==
   /\ l <= Len(Trace)
@@ -44,7 +50,7 @@ Next ==
                          <<"twin sequences: equal streams must give equal challenges, different streams different ones", e.twin, stream = fin0.stream>>, <<"transcript", "twin">>)
                 ELSE <<>>))
          /\ fin0' = IF final /\ e.run = 0 THEN [stream |-> stream, chal |-> e.out] ELSE fin0
-         /\ cnt' = Bump(cnt, IF final /\ e.run = 1 THEN "twin/" \o e.twin \o (IF stream = fin0.stream THEN "/same" ELSE "/diff") ELSE e.op)
+         /\ cnt' = Bump(cnt, IF final /\ e.run = 1 THEN "twin/" \o e.twin \o (IF stream = fin0.stream THEN "/same" ELSE "/diff") ELSE IF isc /\ NearKR(stream) THEN "challenge-near-kr" ELSE e.op)
   /\ l' = l + 1
 Spec == Init /\ [][Next]_vars
 Finished == l = Len(Trace) + 1 => WriteVerdict(l, bad, cnt)
